@@ -5,6 +5,7 @@ from __future__ import annotations
 import numpy as np
 from hypothesis import strategies as st
 
+from vf import forms
 from vf import mptables as mp
 from vf.core import Result, lib
 from vf.props import c15
@@ -44,6 +45,8 @@ def strategy_(draw):
         for _ in range(n)
     ]
     c["phi_factor_exp"] = draw(st.integers(-4, 1))
+    # the form of a scalar pressure argument (float32 excluded: c is a difference over 1 psi)
+    c["p_form"] = draw(st.sampled_from(["int", "np.int64", "np.int32", "np.float64", "0d-float64", "0d-int64"]))
     return c
 
 
@@ -135,6 +138,24 @@ def check_case(case) -> Result:
     c_one = np.array([float(compressibility_combined_func(float(q), float(s_), phi, sw, pvt)) for q, s_ in zip(ps[:4], so[:4])])
     if not np.allclose(c_one, c_lib[:4], rtol=1e-13, atol=0):
         res.bad("C16/same-result-for-scalar-and-array-arguments", f"cell-by-cell scalar calls give {c_one} but the array call {c_lib[:4]}")
+    # ... and whatever scalar type carries the pressure (whole-number pressures as Python / numpy ints, 0-d arrays)
+    form = case.get("p_form", "np.float64")
+    for q, s_ in list(zip(ps, so))[:2]:
+        qq = forms.representable(float(q), form)
+        if not (p_nodes[0] + 1.0 <= qq <= p_nodes[-1] - 1.0):
+            continue
+        try:
+            c_f = float(compressibility_combined_func(forms.scalar(qq, form), float(s_), phi, sw, pvt))
+            l_f = float(lambda_combined_func(forms.scalar(qq, form), float(s_), pvt, kr))
+        except Exception as e:  # noqa: BLE001
+            res.bad("C16/same-result-for-scalar-and-array-arguments", f"pressure {qq!r} given as {form}: {type(e).__name__}: {e}")
+            break
+        c_p = float(compressibility_combined_func(float(qq), float(s_), phi, sw, pvt))
+        l_p = float(lambda_combined_func(float(qq), float(s_), pvt, kr))
+        if not (abs(c_f - c_p) <= 1e-12 * abs(c_p) + 1e-300 and abs(l_f - l_p) <= 1e-12 * abs(l_p) + 1e-300):
+            res.bad("C16/same-result-for-scalar-and-array-arguments", f"pressure {qq!r} given as {form}: c={c_f!r}, lambda={l_f!r}; as a Python float: c={c_p!r}, lambda={l_p!r}")
+            break
+        res.labels["scalar_pressure_forms"] = "checked"
     # proportional to porosity (dyadic factor: exact)
     f = 2.0 ** case["phi_factor_exp"]
     c2 = np.asarray(lib("compressibility_combined_func(phi scaled)", compressibility_combined_func, ps, so, phi * f, sw, pvt), float)
